@@ -162,6 +162,8 @@ def compare_file(V, text, snap, path, label, expect=None, judge_positions=False)
                   ("yield_line", c["yield_line"], r["yield_line"]), ("return_type", c["ret"], r["ret"]),
                   ("docstring", c["doc"], r["doc"]), ("end_line", c["end_line"], r["end_line"])]
         for fname, cv, rv in fields:
+            if fname == "return_type" and isinstance(cv, str) and isinstance(rv, str) and "".join(cv.split()) == "".join(rv.split()):
+                continue          # spacing inside a type expression is cosmetic
             if cv != rv:
                 problems.append(("field %s of a fixture differs from the source" % fname,
                                  {"fixture": k[0], "line": k[1], "source_says": cv, "index_says": rv}))
